@@ -125,7 +125,7 @@ func setup(exec string, workers int, w *world) (*nbio.Engine, *nbio.Conn, func()
 	if err := g.Start(); err != nil {
 		return nil, nil, cleanup, err
 	}
-	a, peer, err := vlib.StreamPair("tcp", 0, 0)
+	a, peer, err := vlib.StreamPair("unix", 0, 0)
 	if err != nil {
 		return nil, nil, cleanup, err
 	}
@@ -447,9 +447,207 @@ func genStress(t *rapid.T) Stress {
 	return c
 }
 
+// CloseRace: several connections, each hammered with Execute by a few goroutines while it is closed
+// (by the application, by the peer, or by the peer resetting). The engine's close callback queues a
+// "close job" with MustExecute, the way nbhttp does its close handling.
+type CloseRace struct {
+	Exec       string `json:"executor"`
+	Workers    int    `json:"workers,omitempty"`
+	Conns      int    `json:"conns"`
+	Submitters int    `json:"submitters"`
+	CloseBy    string `json:"close_by"` // close, peer-close, closewitherror
+	DelayUs    int    `json:"delay_us"`
+	Procs      int    `json:"gomaxprocs"`
+}
+
+func runCloseRace(c CloseRace) vlib.Result {
+	vlib.Logs.Take()
+	res := vlib.Result{Classes: []string{"close-race", "executor=" + c.Exec, "close-by=" + c.CloseBy, fmt.Sprintf("gomaxprocs=%d", c.Procs)}}
+	old := runtime.GOMAXPROCS(c.Procs)
+	defer runtime.GOMAXPROCS(old)
+	g := nbio.NewEngine(nbio.Config{NPoller: 1})
+	cleanup := func() {}
+	switch c.Exec {
+	case "inline":
+		g.Execute = func(f func()) { f() }
+	case "goroutine":
+		g.Execute = func(f func()) { go f() }
+	case "pool":
+		ch := make(chan func(), 65536)
+		quit := make(chan struct{})
+		for i := 0; i < c.Workers; i++ {
+			go func() {
+				for {
+					select {
+					case f := <-ch:
+						f()
+					case <-quit:
+						return
+					}
+				}
+			}()
+		}
+		g.Execute = func(f func()) { ch <- f }
+		cleanup = func() { close(quit) }
+	}
+	defer cleanup()
+	type cst struct {
+		seq        int64 // per-connection run counter
+		closeSeq   int64 // value of seq when the close job ran (0 = not yet)
+		inflight   int32
+		overlap    int32
+		afterJobs  int32 // accepted jobs that ran after the close job
+		accepted   int64
+		ran        int64
+		refusedRan int32
+	}
+	var mu sync.Mutex
+	states := map[*nbio.Conn]*cst{}
+	g.OnClose(func(nc *nbio.Conn, err error) {
+		mu.Lock()
+		st := states[nc]
+		mu.Unlock()
+		if st == nil {
+			return
+		}
+		nc.MustExecute(func() {
+			if atomic.AddInt32(&st.inflight, 1) != 1 {
+				atomic.StoreInt32(&st.overlap, 1)
+			}
+			atomic.StoreInt64(&st.closeSeq, atomic.AddInt64(&st.seq, 1))
+			atomic.AddInt32(&st.inflight, -1)
+		})
+	})
+	if err := g.Start(); err != nil {
+		return vlib.Fail("harness: %v", err)
+	}
+	defer vlib.StopEngine(g.Stop, 10*time.Second)
+	var wg sync.WaitGroup
+	var all []*cst
+	for i := 0; i < c.Conns; i++ {
+		a, peer, err := vlib.StreamPair("unix", 0, 0)
+		if err != nil {
+			return vlib.Fail("harness: %v", err)
+		}
+		defer peer.Close()
+		st := &cst{}
+		all = append(all, st)
+		nbc, err := nbio.NBConn(a)
+		if err != nil {
+			return vlib.Fail("harness: %v", err)
+		}
+		mu.Lock()
+		states[nbc] = st
+		mu.Unlock()
+		if _, err := g.AddConn(nbc); err != nil {
+			return vlib.Fail("harness: %v", err)
+		}
+		var stop int32
+		for s := 0; s < c.Submitters; s++ {
+			wg.Add(1)
+			go func() {
+				defer wg.Done()
+				refusals := 0
+				for n := 0; n < 2000000 && refusals < 3 && atomic.LoadInt32(&stop) < 2; n++ {
+					var accepted int32 // 0 undecided, 1 accepted, 2 refused
+					var ranEarly int32
+					ok := nbc.Execute(func() {
+						if atomic.AddInt32(&st.inflight, 1) != 1 {
+							atomic.StoreInt32(&st.overlap, 1)
+						}
+						atomic.AddInt64(&st.seq, 1)
+						atomic.AddInt64(&st.ran, 1)
+						if atomic.LoadInt64(&st.closeSeq) != 0 {
+							atomic.AddInt32(&st.afterJobs, 1)
+						}
+						if atomic.LoadInt32(&accepted) == 2 {
+							atomic.StoreInt32(&st.refusedRan, 1)
+						}
+						atomic.StoreInt32(&ranEarly, 1)
+						atomic.AddInt32(&st.inflight, -1)
+					})
+					if ok {
+						atomic.StoreInt32(&accepted, 1)
+						atomic.AddInt64(&st.accepted, 1)
+					} else {
+						atomic.StoreInt32(&accepted, 2)
+						if atomic.LoadInt32(&ranEarly) == 1 {
+							atomic.StoreInt32(&st.refusedRan, 1)
+						}
+						refusals++
+					}
+				}
+			}()
+		}
+		wg.Add(1)
+		go func() {
+			defer wg.Done()
+			deadline := time.Now().Add(time.Duration(c.DelayUs) * time.Microsecond)
+			for time.Now().Before(deadline) {
+				runtime.Gosched()
+			}
+			switch c.CloseBy {
+			case "peer-close":
+				_ = peer.Close()
+			case "closewitherror":
+				_ = nbc.CloseWithError(fmt.Errorf("closed by the harness"))
+			default:
+				_ = nbc.Close()
+			}
+			// safety net for the submitters' loop bound only
+			time.AfterFunc(5*time.Second, func() { atomic.StoreInt32(&stop, 2) })
+		}()
+	}
+	wg.Wait()
+	ok := vlib.WaitUntil(5*time.Second, func() bool {
+		for _, st := range all {
+			if atomic.LoadInt64(&st.closeSeq) == 0 || atomic.LoadInt64(&st.ran) < atomic.LoadInt64(&st.accepted) {
+				return false
+			}
+		}
+		return true
+	})
+	time.Sleep(2 * time.Millisecond)
+	for i, st := range all {
+		switch {
+		case atomic.LoadInt32(&st.overlap) != 0:
+			res.Err = fmt.Errorf("connection %d: two jobs of the same connection ran at the same time", i)
+		case atomic.LoadInt32(&st.refusedRan) != 0:
+			res.Err = fmt.Errorf("connection %d: a job that Execute refused was run", i)
+		case atomic.LoadInt32(&st.afterJobs) != 0:
+			res.Err = fmt.Errorf("connection %d: %d job(s) accepted by Execute ran after the close handling queued by the close callback had already run", i, st.afterJobs)
+		case atomic.LoadInt64(&st.closeSeq) == 0:
+			res.Err = fmt.Errorf("connection %d: the close job queued with MustExecute from the close callback never ran (waited=%v)", i, ok)
+		case atomic.LoadInt64(&st.ran) != atomic.LoadInt64(&st.accepted):
+			res.Err = fmt.Errorf("connection %d: %d jobs accepted by Execute but %d ran", i, st.accepted, st.ran)
+		}
+		if res.Err != nil {
+			return res
+		}
+		if st.accepted > 0 {
+			res.NonTrivial = true
+		}
+	}
+	return res
+}
+
+func genCloseRace(t *rapid.T) CloseRace {
+	c := CloseRace{Exec: rapid.SampledFrom([]string{"inline", "goroutine", "pool"}).Draw(t, "executor")}
+	if c.Exec == "pool" {
+		c.Workers = rapid.IntRange(1, 4).Draw(t, "workers")
+	}
+	c.Conns = rapid.SampledFrom([]int{1, 4, 8}).Draw(t, "conns")
+	c.Submitters = rapid.SampledFrom([]int{1, 2, 4, 8}).Draw(t, "submitters")
+	c.CloseBy = rapid.SampledFrom([]string{"close", "peer-close", "closewitherror"}).Draw(t, "closeby")
+	c.DelayUs = rapid.SampledFrom([]int{0, 20, 100, 500}).Draw(t, "delay")
+	c.Procs = rapid.SampledFrom([]int{2, 4, 16}).Draw(t, "procs")
+	return c
+}
+
 func TestCheck(t *testing.T) {
 	r := vlib.NewRunner(t, "C05")
 	vlib.RunCheck(r, vlib.Check[Case]{Name: "sequences", N: r.Pick(20000, 400000), Gen: genSeq, Run: runSeq, RecordCurrent: true})
 	vlib.RunCheck(r, vlib.Check[Stress]{Name: "stress", N: r.Pick(800, 20000), Gen: genStress, Run: runStress, RecordCurrent: true})
+	vlib.RunCheck(r, vlib.Check[CloseRace]{Name: "close-race", N: r.Pick(800, 20000), Gen: genCloseRace, Run: runCloseRace, RecordCurrent: true})
 	r.Finish()
 }
